@@ -167,3 +167,24 @@ Proof. intros Hn Hg. cbn [expand_step]. unfold group_text_n, group_text. apply N
 
 Theorem expand_number_absent c n : (N.of_nat (length (cp_saves c)) <= n)%N -> expand_step c (StNum n) = [].
 Proof. intros Hn. cbn [expand_step]. unfold group_text_n. apply N.ltb_ge in Hn. now rewrite Hn. Qed.
+
+(* check is complete too: it rejects ONLY templates with a step that is not ok *)
+Lemma check_num_complete names n k : k = 0%N \/ (names = [] /\ (k < N.of_nat n)%N) -> check_num names n k = None.
+Proof.
+  unfold check_num. intros [->|[-> Hk]]; [reflexivity|].
+  destruct (N.eqb k 0); [reflexivity|]. apply N.ltb_lt in Hk. now rewrite Hk.
+Qed.
+
+Theorem check_complete x template names n :
+  Forall (step_ok names n) (steps x template) -> check x template names n = None.
+Proof.
+  unfold check. induction (steps x template) as [|st l IH]; intros H; [reflexivity|].
+  inversion H as [|? ? Hst Hl]; subst. cbn [check_steps]. specialize (IH Hl).
+  destruct st as [b|id|k|]; cbn [step_ok] in Hst.
+  - exact IH.
+  - destruct Hst as [[i Hi]|(k & Hk & Hok)].
+    + now rewrite Hi.
+    + destruct (lookup_name names id); [exact IH|]. rewrite Hk, (check_num_complete names n k Hok). exact IH.
+  - now rewrite (check_num_complete names n k Hst).
+  - contradiction.
+Qed.
